@@ -6,14 +6,16 @@ namespace Bxh.Exec
 open Bxh
 
 theorem tmAddTimeout_steps (l : Led) (h : Nat) (id : TId) : Steps l (tmAddTimeout l h id) := by
-  unfold tmAddTimeout; split <;> steps_tac
+  unfold tmAddTimeout; split <;> (try split) <;> steps_tac
 
 theorem tmRemoveTimeout_steps {l l' : Led} {h : Nat} {id : TId} (e : tmRemoveTimeout l h id = .ok l') : Steps l l' := by
   unfold tmRemoveTimeout at e
   split at e
   · split at e
     · cases e; steps_tac
-    · cases e
+    · split at e
+      · cases e; steps_tac
+      · cases e
   · cases e; steps_tac
 
 theorem tmBegin_steps (l : Led) (cur : Nat) (id : TxId) (t : Nat) (f : Bool) : Steps l (tmBegin l cur id t f).1 := by
